@@ -1,5 +1,6 @@
 import Mrpro.Model.CG
 import Mrpro.Lemmas.CGL
+import Mrpro.Lemmas.CGKrylovL
 /-! # C06 — conjugate gradient
 
 `cgRun` is the line-by-line model of `mrpro.algorithms.optimizers.cg` (generic in the vector type).
@@ -79,5 +80,29 @@ theorem cg_homogeneous (h : HPD B H) (b : V) (x0 : Option V) (maxIter : Nat) (c 
     ∃ tr', cgRun (modOps B) (fun v => H v) (c • b) (x0.map (fun v => c • v)) maxIter none = .ok (c • x) reason tr'
       ∧ tr'.map (·.x) = tr.map (fun t => c • t.x) :=
   M.cg_homogeneous B H h.symm h.posB h.selfadj h.posH b x0 maxIter c hc x reason tr hrun
+
+/-- **Krylov optimality of every iterate** (the title statement of C06): the (k+1)-th iterate reported to the callback lies in
+`x₀ + 𝒦ₖ₊₁` with `𝒦ₖ₊₁ = span{r₀, H r₀, …, Hᵏ r₀}`, `r₀ = b − H x₀`, and among *all* points of that affine space it has the
+smallest H-norm error `E(y) = ⟨x* − y, H (x* − y)⟩`, `H x* = b` — for every HPD system, start value, budget and tolerance -/
+theorem cg_krylov_optimal (h : HPD B H) (b : V) (x0 : Option V) (maxIter : Nat) (tol2 : Option K)
+    (x : V) (reason : String) (tr : List (CGTrace V)) (xs : V) (hxs : H xs = b)
+    (hrun : cgRun (modOps B) (fun v => H v) b x0 maxIter tol2 = .ok x reason tr)
+    (k : ℕ) (hk : k < tr.length) :
+    tr[k].x - start b x0 ∈
+        Submodule.span K (Set.range (fun j : Fin (k + 1) => (H ^ (j : ℕ)) (b - H (start b x0))))
+    ∧ ∀ d ∈ Submodule.span K (Set.range (fun j : Fin (k + 1) => (H ^ (j : ℕ)) (b - H (start b x0)))),
+        B (xs - tr[k].x) (H (xs - tr[k].x))
+          ≤ B (xs - (start b x0 + d)) (H (xs - (start b x0 + d))) :=
+  M.cg_krylov_optimal_hpd B H h.symm h.posB h.selfadj h.posH b x0 maxIter tol2 x reason tr xs hxs hrun k hk
+
+/-- Galerkin condition: the residual of the (k+1)-th iterate lies in `𝒦ₖ₊₂` and is orthogonal to `𝒦ₖ₊₁`
+(hence residuals of different iterations are mutually orthogonal) -/
+theorem cg_krylov_residual (h : HPD B H) (b : V) (x0 : Option V) (maxIter : Nat) (tol2 : Option K)
+    (x : V) (reason : String) (tr : List (CGTrace V))
+    (hrun : cgRun (modOps B) (fun v => H v) b x0 maxIter tol2 = .ok x reason tr)
+    (k : ℕ) (hk : k < tr.length) :
+    tr[k].r ∈ M.Kry H (b - H (start b x0)) (k + 2) ∧
+      ∀ w ∈ M.Kry H (b - H (start b x0)) (k + 1), B tr[k].r w = 0 :=
+  M.cg_krylov_residual B H h.selfadj h.posH b x0 maxIter tol2 x reason tr hrun k hk
 
 end C06
